@@ -10,8 +10,9 @@ from ..cfg import CFG
 from ..domains import CompShape
 from ..engine import Analysis
 from ..kinds import NOVALUE, calls_to, classify_handler, normal_only, scenario
+from ..kinds import both as both_
 from ..loader import FunctionInfo, dotted, parent, stmt_text, within
-from .c04 import CONTAINER_VALIDATORS, conversion
+from .c04 import CONTAINER_VALIDATORS, container_validators, conversion, factory_closures, multi_validator_names
 
 ASSUMPTIONS = [
     "NARROW CLAIM: 'construction succeeds exactly when every value conforms to its annotation' is an equivalence over an infinite value space and is NOT decided",
@@ -102,11 +103,23 @@ def check(an: Analysis) -> None:
     ob2 = an.ob("C05.2", "K9", "sequence / variadic tuple / set validators: the comprehension iterates the matched container once, without filter, element = element_validator(<loop variable>)", CONTAINER_VALIDATORS)
     ob3 = an.ob("C05.3", "K9+K10", "mapping validator iterates <capture>.items() with two targets; key -> key_validator(key), value -> value_validator(value) (not crossed)", [f"{VAL}._prepare_validator_of_mapping.validator"])
     ob4 = an.ob("C05.4", "K2+K9", "fixed tuple validator: a raising `len(elements) != count` guard dominates the return; element i goes through validator i", [f"{VAL}._prepare_validator_of_tuple.validator#2"])
-    for q in CONTAINER_VALIDATORS:
-        f = prog.fn(q)
-        outer = f.outer
-        assert outer is not None
+    cvs = container_validators(an)
+    for kind, is_fixed, f in cvs:
         vparam = f.param_names()[0]
+        assert f.outer is not None
+        multi = multi_validator_names(f.outer)
+        singles = _single_validator_names(f.outer)
+        counts = {t.id for n in f.outer.own_nodes() if isinstance(n, (ast.Assign, ast.AnnAssign)) and getattr(n, "value", None) is not None and isinstance(n.value, ast.Call) and is_name(n.value.func, "len") and n.value.args and isinstance(n.value.args[0], ast.Name) and n.value.args[0].id in multi for t in (n.targets if isinstance(n, ast.Assign) else [n.target]) if isinstance(t, ast.Name)}
+
+        def is_multi(e: ast.AST, multi=multi) -> bool:
+            return isinstance(e, ast.Name) and e.id in multi
+
+        def is_count(e: ast.AST, multi=multi, counts=counts) -> bool:
+            return (isinstance(e, ast.Name) and e.id in counts) or (isinstance(e, ast.Call) and is_name(e.func, "len") and len(e.args) == 1 and is_multi(e.args[0]))
+
+        def applies_single(call: ast.AST | None, index: int, arg: str, singles=singles) -> bool:
+            return isinstance(call, ast.Call) and isinstance(call.func, ast.Name) and singles.get(call.func.id) == index and len(call.args) == 1 and not call.keywords and is_name(call.args[0], arg)
+
         g = an.cfg(f)
         for r in [r for r in f.own_nodes() if isinstance(r, ast.Return)]:
             ctor, sh, problem = conversion(an, f, r)
@@ -114,7 +127,7 @@ def check(an: Analysis) -> None:
                 continue  # reported by C04.3
             it = unwrap(sh.iter)
             names = sh.target_names()
-            if outer.name == "_prepare_validator_of_mapping":
+            if kind == "mapping":
                 ob3.inst(f, r)
                 cap = it.func.value if isinstance(it, ast.Call) and isinstance(it.func, ast.Attribute) and it.func.attr == "items" and not it.args else None
                 if cap is None:
@@ -128,11 +141,10 @@ def check(an: Analysis) -> None:
                     ob3.fail(f, r, "entries are dropped by a filter")
                 kv = unwrap(sh.key)
                 vv = unwrap(sh.value)
-                ok = len(names) == 2 and _applies(kv, "key_validator", names[0]) and _applies(vv, "value_validator", names[1])
+                ok = len(names) == 2 and applies_single(kv, 0, names[0]) and applies_single(vv, 1, names[1])
                 if not ok:
                     ob3.fail(f, r, "keys / values do not go through their own validators (crossed, dropped or re-keyed)")
                 continue
-            is_fixed = q.endswith("#2")
             tgt = ob4 if is_fixed else ob2
             tgt.inst(f, r)
             if sh.filtered:
@@ -141,28 +153,28 @@ def check(an: Analysis) -> None:
                 el = unwrap(sh.elt)
                 ok = False
                 if isinstance(it, ast.Call) and is_name(it.func, "enumerate") and len(it.args) == 1 and _is_subject(f, it.args[0], vparam, want="star") and len(names) == 2:
-                    ok = isinstance(el, ast.Call) and isinstance(el.func, ast.Subscript) and is_name(el.func.value, "element_validators") and is_name(el.func.slice, names[0]) and len(el.args) == 1 and is_name(el.args[0], names[1])
+                    ok = isinstance(el, ast.Call) and isinstance(el.func, ast.Subscript) and is_multi(el.func.value) and is_name(el.func.slice, names[0]) and len(el.args) == 1 and is_name(el.args[0], names[1])
                 elif isinstance(it, ast.Call) and is_name(it.func, "zip") and len(it.args) == 2 and len(names) == 2:
                     a0, a1 = it.args
-                    if is_name(a0, "element_validators") and _is_subject(f, a1, vparam, want="star"):
+                    if is_multi(a0) and _is_subject(f, a1, vparam, want="star"):
                         ok = isinstance(el, ast.Call) and is_name(el.func, names[0]) and len(el.args) == 1 and is_name(el.args[0], names[1])
-                    elif is_name(a1, "element_validators") and _is_subject(f, a0, vparam, want="star"):
+                    elif is_multi(a1) and _is_subject(f, a0, vparam, want="star"):
                         ok = isinstance(el, ast.Call) and is_name(el.func, names[1]) and len(el.args) == 1 and is_name(el.args[0], names[0])
                 if not ok:
                     tgt.fail(f, r, "element i of a fixed tuple does not go through validator i over all matched elements")
                 # arity guard
                 rn = [n for n in g.nodes if n.kind == "return" and n.ast is r]
-                guards = [n for n in g.nodes if n.kind == "test" and isinstance(n.ast, ast.Compare) and any(isinstance(x, ast.Call) and is_name(x.func, "len") for x in ast.walk(n.ast)) and any(is_name(x, "elements_count") for x in ast.walk(n.ast))]
+                guards = [n for n in g.nodes if n.kind == "test" and isinstance(n.ast, ast.Compare) and any(isinstance(x, ast.Call) and is_name(x.func, "len") and not is_count(x) for x in ast.walk(n.ast)) and any(is_count(x) for x in ast.walk(n.ast))]
                 if not guards:
                     tgt.fail(f, r, "no arity guard: tuples of the wrong length are accepted (IndexError or silently truncated)")
                 else:
 
                     def env(n_el: int):
                         def e(x: ast.AST):
+                            if is_count(x):
+                                return 2
                             if isinstance(x, ast.Call) and is_name(x.func, "len"):
                                 return n_el
-                            if is_name(x, "elements_count"):
-                                return 2
                             return NOVALUE
 
                         return e
@@ -178,11 +190,16 @@ def check(an: Analysis) -> None:
                 if not _is_subject(f, it, vparam, want="star") and not is_name(it, vparam):
                     tgt.fail(f, r, "the comprehension does not run over the matched container")
                 el = unwrap(sh.elt)
-                if not (len(names) == 1 and _applies(el, "element_validator", names[0])):
+                if not (len(names) == 1 and applies_single(el, 0, names[0])):
                     tgt.fail(f, r, "elements do not go through element_validator(<element>) one to one")
 
     # ------------------------------------------------------------------ C05.5 union
-    uf = prog.fn(f"{VAL}._prepare_validator_of_union.validator")
+    fcs = factory_closures(an)
+    if "union" not in fcs or "type" not in fcs:
+        raise AnalysisError("C05.5: the VALIDATORS table has no union / type entry")
+    if len(fcs["union"][1]) != 1:
+        raise AnalysisError("C05.5: expected one validator closure in the union factory")
+    uf = fcs["union"][1][0]
     gu = an.cfg(uf)
     ob = an.ob("C05.5", "K2", "union validator returns the first alternative that does not raise and raises when none matched (no value is yielded from the handler, no fall-through)", [uf.short])
     rets = [n for n in gu.nodes if n.kind == "return"]
@@ -190,7 +207,7 @@ def check(an: Analysis) -> None:
         ob.inst(uf, r.ast)
         v = unwrap(Deps(prog, uf).inline(r.ast.value))  # type: ignore[union-attr]
         loop = next((p for p in _anc(r.ast) if isinstance(p, ast.For)), None)
-        ok = loop is not None and is_name(loop.iter, "validators") and isinstance(loop.target, ast.Name) and isinstance(v, ast.Call) and is_name(v.func, loop.target.id) and len(v.args) == 1 and is_name(v.args[0], uf.param_names()[0])
+        ok = loop is not None and isinstance(loop.iter, ast.Name) and loop.iter.id in multi_validator_names(fcs["union"][0]) and isinstance(loop.target, ast.Name) and isinstance(v, ast.Call) and is_name(v.func, loop.target.id) and len(v.args) == 1 and is_name(v.args[0], uf.param_names()[0])
         if not ok or r.meta.get("handler") is not None:
             ob.fail(uf, r.ast, "the union validator yields something else than the result of an alternative's validator applied to the value")
     if not rets:
@@ -262,8 +279,7 @@ def check(an: Analysis) -> None:
 
     # ------------------------------------------------------------------ C05.9 identity validators: accept -> the value itself, otherwise raise
     ob = an.ob("C05.9", "K8", "leaf validators (any / none / missing / literal / type / callable) return the value itself and every non-accepting path raises (no fall-through returning None)")
-    for q in ("_prepare_validator_of_any.validator", "_prepare_validator_of_none.validator", "_prepare_validator_of_missing.validator", "_prepare_validator_of_literal.validator", "_prepare_validator_of_type.type_validator", "_prepare_validator_of_callable.validator"):
-        f = prog.fn(f"{VAL}.{q}")
+    for q, f in [(k, c) for k in ("any", "none", "missing", "literal", "type", "callable") if k in fcs for c in fcs[k][1]]:
         g = an.cfg(f)
         p = f.param_names()[0]
         ob.inst(f, None)
@@ -275,18 +291,106 @@ def check(an: Analysis) -> None:
         w = g.search([g.entry], lambda n: n.kind == "exit-return", skip_node=lambda n: n.kind == "return", skip_edge=normal_only)
         if w is not None:
             ob.fail(f, None, "a non-conforming value falls through and is accepted as None", CFG.show_path(w))
-        if "any" not in q and not [n for n in g.nodes if n.kind == "raise"]:
+        if q != "any" and not [n for n in g.nodes if n.kind == "raise"]:
             ob.fail(f, None, "validator never rejects")
-    tv = prog.fn(f"{VAL}._prepare_validator_of_type.type_validator")
-    tests = [n for n in tv.own_nodes() if isinstance(n, ast.Call) and is_name(n.func, "isinstance")]
-    if not (tests and all(len(t.args) == 2 and is_name(t.args[0], tv.param_names()[0]) and is_name(t.args[1], "validated_type") for t in tests)):
-        ob.fail(tv, tests[0] if tests else None, "the type validator does not test isinstance(value, <annotated type>)")
-    for q in CONTAINER_VALIDATORS + [f"{VAL}._prepare_validator_of_union.validator"]:
-        f = prog.fn(q)
+    tfac, tvs = fcs["type"]
+    dfac = Deps(prog, tfac)
+    ann_p = tfac.param_names()[0]
+
+    def is_annotated_type(e: ast.AST) -> bool:
+        e = unwrap(e)
+        if isinstance(e, ast.Name) and (sv := dfac.single_value(e.id)) is not None:
+            e = unwrap(sv)
+        return isinstance(e, ast.Attribute) and e.attr == "origin" and is_name(e.value, ann_p)
+
+    for tv in tvs:
+        tests = [n for n in tv.own_nodes() if isinstance(n, ast.Call) and is_name(n.func, "isinstance")] + [n for n in tv.own_nodes() if isinstance(n, ast.MatchClass)]
+        ok = bool(tests)
+        for t in tests:
+            if isinstance(t, ast.Call):
+                ok = ok and len(t.args) == 2 and is_name(t.args[0], tv.param_names()[0]) and is_annotated_type(t.args[1])
+            else:
+                m = next((p_ for p_ in _anc(t) if isinstance(p_, ast.Match)), None)
+                ok = ok and m is not None and is_name(m.subject, tv.param_names()[0]) and is_annotated_type(t.cls)
+        if not ok:
+            ob.fail(tv, tests[0] if tests else None, "the type validator does not test isinstance(value, <annotated type>)")
+    for f in [c for _, _, c in cvs] + [uf]:
         g = an.cfg(f)
         w = g.search([g.entry], lambda n: n.kind == "exit-return", skip_node=lambda n: n.kind == "return", skip_edge=normal_only)
         if w is not None:
             ob.fail(f, None, "a non-matching value falls through and is accepted as None", CFG.show_path(w))
+    # ------------------------------------------------------------------ C05.11 acceptance domain of the container validators
+    from ..kinds import Scenario, abs_builtin
+
+    ob = an.ob("C05.11", "K2 typed scenarios", "container validators accept the builtin containers conforming to the annotation kind and reject the others: Sequence/tuple never take str / bytes / sets / mappings / scalars, Set takes only sets, Mapping only mappings (evaluated with isinstance / sequence-pattern / mapping-pattern semantics over abstract instances)", CONTAINER_VALIDATORS)
+    domain = {
+        "sequence": (("list", "tuple"), ("str", "bytes", "bytearray", "set", "frozenset", "dict", "int", None)),
+        "tuple": (("tuple",), ("str", "bytes", "bytearray", "set", "frozenset", "dict", "int", None)),
+        "set": (("set", "frozenset"), ("list", "tuple", "str", "bytes", "dict", "int", None)),
+        "mapping": (("dict",), ("list", "tuple", "str", "bytes", "set", "frozenset", "int", None)),
+    }
+    for kind, _fx, f in cvs:
+        q = f.short
+        accept, reject = domain[kind]
+        g = an.cfg(f)
+        dv = Deps(prog, f)
+        vp = f.param_names()[0]
+        rets = [n for n in g.nodes if n.kind == "return"]
+        for cls_name in accept + reject:
+            val = None if cls_name is None else abs_builtin(cls_name)
+
+            def base(e: ast.AST, val=val):
+                if is_name(e, vp) and isinstance(getattr(e, "ctx", None), ast.Load):
+                    return val
+                return NOVALUE
+
+            sc = Scenario(g, dv, base)
+            und = set(sc.undecided())
+            ob.inst(f, None, f"{kind} validator: value of class {cls_name}")
+            shown = "None" if cls_name is None else f"a {cls_name}"
+            if cls_name in accept:
+                if not any(r.id in sc.reach for r in rets):
+                    ob.fail(f, None, f"{shown} is rejected where the annotation kind accepts it")
+                continue
+            w = g.search([g.entry], lambda n: n in rets, skip_edge=both_(sc.skip, normal_only), skip_node=lambda n: n in und)
+            if w is not None:
+                ob.fail(f, w[-1].ast, f"{shown} is accepted by the {kind} validator (and converted element-wise) although it does not conform to the annotation", CFG.show_path(w))
+            elif any(r.id in sc.reach for r in rets):
+                raise AnalysisError(f"C05.11: cannot decide whether {q} accepts {shown}: the accepting return is guarded by a test this analysis cannot evaluate ({stmt_text(next(iter(und)).ast, 60) if und else '?'})")
+
+    # ------------------------------------------------------------------ C05.12 a supplied type argument is used as supplied
+    ob = an.ob("C05.12", "K5", "the type argument bound to a TypeVar is looked up with an absent-only fallback (`.get(name, <bound or Any>)`, `in`, KeyError): the lookup result never goes through a truthiness / `is None` test, because None is a legal (falsy) type argument", [RES])
+    for fi in [f for f in prog.scan_functions() if f.module.name == "haiway.state.attributes"]:
+        dd = Deps(prog, fi)
+
+        def is_lookup(e: ast.AST, dd=dd) -> bool:
+            e = unwrap(e)
+            if isinstance(e, ast.NamedExpr):
+                return is_lookup(e.value)
+            if isinstance(e, ast.Call) and isinstance(e.func, ast.Attribute) and e.func.attr == "get" and "param:type_parameters" in dd.origins(e.func.value):
+                dflt = e.args[1] if len(e.args) > 1 else next((k.value for k in e.keywords if k.arg == "default"), None)
+                return dflt is None or (isinstance(dflt, ast.Constant) and dflt.value is None)
+            if isinstance(e, ast.Name) and isinstance(e.ctx, ast.Load):
+                sv = dd.single_value(e.id)
+                return sv is not None and sv is not e and is_lookup(sv)
+            return False
+
+        for n in fi.own_nodes():
+            if isinstance(n, ast.Call) and isinstance(n.func, ast.Attribute) and n.func.attr == "get" and "param:type_parameters" in dd.origins(n.func.value):
+                ob.inst(fi, n)
+            tested: list[ast.AST] = []
+            if isinstance(n, ast.BoolOp):
+                tested += n.values[:-1] if isinstance(n.op, ast.Or) else n.values[:-1]
+            elif isinstance(n, (ast.If, ast.IfExp, ast.While)):
+                tested.append(n.test)
+            elif isinstance(n, ast.UnaryOp) and isinstance(n.op, ast.Not):
+                tested.append(n.operand)
+            elif isinstance(n, ast.Compare) and len(n.ops) == 1 and isinstance(n.ops[0], (ast.Is, ast.IsNot, ast.Eq, ast.NotEq)) and isinstance(n.comparators[0], ast.Constant) and n.comparators[0].value is None:
+                tested.append(n.left)
+            for t in tested:
+                if is_lookup(t):
+                    ob.fail(fi, n, "a supplied type argument that is falsy (None, as in Box[None]) is treated as not supplied: the attribute resolves to the bound / Any, so non-conforming values are accepted and conforming nested generics rejected")
+
     ob = an.ob("C05.10", "K10", "validators are resolved from the annotation object itself: no module-level cache keyed by a rendered (str/repr/name/hash) annotation, whose rendering is not injective")
     ob.inst(None, None, f"{len([f for f in prog.scan_functions() if f.module.name.startswith('haiway.state')])} functions of haiway.state scanned")
     for fi, n in lossy_cache_uses(an):
@@ -395,3 +499,18 @@ def liveness(fixtures: str) -> list[dict]:
     if len(hits) < 2:
         raise AnalysisError(f"rule C05.10 fires {len(hits)} times on its fixture, expected >= 2")
     return [{"rule": "C05.10", "fixture": "fixtures/c05_lossy_cache", "matches": len(hits)}]
+
+
+def _single_validator_names(fac: FunctionInfo) -> dict[str, int]:
+    """Locals of a factory holding the validator of annotation argument K: name -> K  (x = attribute_validator(annotation.arguments[K]))."""
+    out: dict[str, int] = {}
+    for n in fac.own_nodes():
+        if isinstance(n, (ast.Assign, ast.AnnAssign)) and getattr(n, "value", None) is not None:
+            v = unwrap(n.value)
+            if isinstance(v, ast.Call) and is_name(v.func, "attribute_validator") and len(v.args) == 1:
+                a = unwrap(v.args[0])
+                if isinstance(a, ast.Subscript) and isinstance(a.value, ast.Attribute) and a.value.attr == "arguments" and isinstance(a.slice, ast.Constant) and isinstance(a.slice.value, int):
+                    for t in n.targets if isinstance(n, ast.Assign) else [n.target]:
+                        if isinstance(t, ast.Name):
+                            out[t.id] = a.slice.value
+    return out
